@@ -161,10 +161,16 @@ func registerIntrinsics(p *Program) {
 	reg("verifIteInt", func(ex *Exec, a []Value) Value { return Ite(a[0].(*Term), a[1].(*Term), a[2].(*Term)) })
 	reg("verifParam", func(ex *Exec, a []Value) Value {
 		name := concStr(ex, a[0])
-		if v, ok := ex.P.Params[name]; ok {
+		if v, ok := ex.params()[name]; ok {
 			return BV(uint64(int64(v)), 64)
 		}
 		return a[1]
+	})
+	reg("verifJSONDoc", func(ex *Exec, a []Value) Value {
+		doc := ex.bytesToSlice([]*Term{BV('"', 8), BV('?', 8), BV('"', 8)})
+		ex.natState["jsondoc"] = doc.Arr
+		ex.natState["jsonstr"] = a[0]
+		return doc
 	})
 	reg("verifSymbolic", func(ex *Exec, a []Value) Value { return True })
 	reg("verifNondetTime", func(ex *Exec, a []Value) Value {
